@@ -117,6 +117,20 @@ Proof.
 Qed.
 
 
+Lemma addresses_known_before_first_byte_proof : forall cs t,
+  In t (fst (run wfeed_tagged winit cs)) ->
+  fst t = final_info (snd (run wfeed_tagged winit cs)) /\ fst t <> None.
+Proof. intros cs t. apply run_tagged_all. Qed.
+
+Lemma tagged_run_is_run_proof : forall cs s,
+  map snd (fst (run wfeed_tagged s cs)) = fst (run wfeed s cs) /\ snd (run wfeed_tagged s cs) = snd (run wfeed s cs).
+Proof.
+  induction cs as [|c cs IH]; intros s; [split; reflexivity|].
+  cbn [run]. unfold wfeed_tagged at 1 3. destruct (wfeed s c) as [ev s1]. cbn [fst snd].
+  destruct (IH s1) as [H1 H2]. destruct (run wfeed_tagged s1 cs) as [e' s2]. destruct (run wfeed s1 cs) as [e'' s2'].
+  cbn [fst snd] in *. subst. split; [|reflexivity]. rewrite map_app, map_map. cbn [snd]. now rewrite map_id.
+Qed.
+
 (** the wrapper as it is at the pinned commit closes a valid connection whose first delivery has
     fewer than 8 bytes, although it accepts the same stream delivered at once (finding F19) *)
 Lemma short_first_chunk_refuted_proof : exists cs1 cs2,
